@@ -6,8 +6,9 @@ Families
                instantiated with every tree index and one position per tree + boundaries,
                on small ts (1 tree, gaps at both ends, many equal end-points, ...)
   nav_iter     TreeIterator (ts.trees(), reversed(ts.trees())) against fresh trees
-  seek_nan     Tree.seek(float('nan'))   (finding F4; the call runs in a grand-child
-               process with a short timeout so that a hang is an ordinary observation)
+  seek_nan     Tree.seek(float('nan')) must raise (was finding F4, fixed by eee123e; the call
+               runs in a grand-child process with a short timeout so that a hang is an
+               ordinary observation)
   model        implementation vs the Coq model (C06/Model.v) run on the same
                (edge table, index, breakpoints, op list) by vm_compute
 
@@ -423,8 +424,8 @@ def diff_fields(a, b, fields=None):
 
 def classify_diff(desc, opts, tab, st, ref, states, fresh):
     """Differences between a reached state and the fresh tree of the same index, keyed by
-    input class.  Two classes are recognised precisely (recorded findings); anything else
-    gets the generic key."""
+    input class.  Two classes are recognised precisely (the former findings F14 / F15, fixed
+    in /repo: their keys are ordinary violations now); anything else gets the generic key."""
     bad = diff_fields(st, ref)
     if not bad:
         return []
@@ -1057,7 +1058,7 @@ def coq_J_state(st):
 
 
 def model_ops(rng, desc, T, n):
-    """Ops the model speaks: lattice positions (in and out of range), NaN only from null."""
+    """Ops the model speaks: lattice positions (in and out of range) and NaN."""
     L = desc["L"]
     ops = random_ops(rng, desc, T, n)
     out = []
@@ -1073,8 +1074,7 @@ def model_ops(rng, desc, T, n):
                 if not 0 <= op[1][1] < 2 * L:
                     op = [op[0], ["h", 0]]
             else:
-                out.append(["clear"])
-                op = [op[0], ["raw", "nan"]]         # from the null state: returns (finding F4)
+                op = [op[0], ["raw", "nan"]]         # rejected since fix eee123e (was finding F4)
         out.append(op)
     return out[:n]
 
@@ -1128,10 +1128,7 @@ class Model(Family):
                 "flags": [int(f) for f in ts.tables.nodes.flags], "nsites": int(ts.num_sites)}
 
     def oracle(self, case, obs):
-        # the oracle of this family is the same as nav_random's except for NaN (seek_nan family)
         ops = case["ops"]
-        if any(op[0] in ("seek", "ll_seek") and op[1][0] == "raw" for op in ops):
-            return []
         return oracle_steps(case["desc"], case["opts"], obs["tab"], obs["states"], obs["fresh"],
                             ops, obs["steps"])
 
